@@ -1,8 +1,9 @@
 // harness for C06: "< is a strict total order consistent with =, and sorting follows it".
 //
-// op "cmp":  payload = 2..4 arr.ai sources. All are evaluated in this process; the observable is
+// op "cmp":  payload = 2..8 arr.ai sources. All are evaluated in this process; the observable is
 //
-//	P01=<ops>/<dir>;P02=...;ord=i,j,..;rank=r0,r1,..;max=i;min=i;print=ok|na|FAIL;laws=ok|FAIL:<law>
+//	P01=<ops>/<dir>;P02=...;ord=i,j,..;rank=r0,r1,..;max=i;min=i;print=ok|na|FAIL;
+//	ordk=..;order=..;orderd=..;rank2=rk/rm,..;maxk=i;mink=i;prd=ok|FAIL;prr=ok|FAIL;laws=ok|FAIL:<law>
 //
 //	<ops> = the seven answers of arr.ai's own operators  a<b b<a a=b a<=b a>b a>=b a!=b  (0/1),
 //	        obtained by evaluating the compiled expression `[v0 < v1, ...]` with A, B bound to v0, v1
@@ -12,6 +13,9 @@
 //	max/min = `{A, B, ...} max .` / `min .` as an input position
 //	print = the printed text of the set {A, B, ...} lists its members in the pairwise `<` order
 //	        (only for sets printed member by member: GenericSet and UnionSet; otherwise "na")
+//	ordk  = `{|k, i| (A, 0), (B, 1), ...} orderby .k` (key expression), order/orderd = `order \a \b a < b` / `a > b`,
+//	rank2 = rank with two ranking attributes (the key; i % 2 with many ties), maxk/mink = `max .k` / `min .k`,
+//	prd/prr = a dictionary keyed by / a relation over the inputs prints its entries/rows in the `<` order
 //	laws  = irreflexivity, trichotomy, transitivity, derived operators, ops=direct, orderby/rank/max/min
 //	        consistent with pairwise `<` — decided here from the implementation's answers alone.
 //
@@ -356,6 +360,196 @@ func compare(srcs []string) *report {
 		}
 	}
 	r.fields = append(r.fields, "print="+pr)
+
+	// ---- every other client of the order, over the distinct inputs d0..d(m-1) (position p in `distinct`)
+	m := len(distinct)
+	dvals := make([]rel.Value, m)
+	for p, i := range distinct {
+		dvals[p] = vals[i]
+	}
+	pos := map[int]int{} // input index -> expected position
+	for k, i := range expected {
+		pos[i] = k
+	}
+	idxList := func(v rel.Value, err error, item func(rel.Value) int) (string, []int) {
+		if err != nil {
+			return "error", nil
+		}
+		items, ok := arrayItems(v)
+		if !ok {
+			return "error", nil
+		}
+		parts := make([]string, len(items))
+		got := make([]int, len(items))
+		for k, it := range items {
+			got[k] = -1
+			if it != nil {
+				got[k] = item(it)
+			}
+			parts[k] = strconv.Itoa(got[k])
+		}
+		return strings.Join(parts, ","), got
+	}
+	sameOrder := func(got []int, want []int) bool {
+		if len(got) != len(want) {
+			return false
+		}
+		for k := range got {
+			if got[k] != want[k] {
+				return false
+			}
+		}
+		return true
+	}
+	byCanon := func(it rel.Value) int { return indexOf(canons, hlib.Canon(it)) }
+	rows := make([]string, m)
+	for p := range rows {
+		rows[p] = fmt.Sprintf("(%s, %d)", varName(p), p)
+	}
+	relKI := "{|k, i| " + strings.Join(rows, ", ") + "}"
+	byI := func(it rel.Value) int {
+		if t, ok := it.(rel.Tuple); ok {
+			if iv, has := t.Get("i"); has {
+				if n, ok := iv.(rel.Number); ok && int(n) >= 0 && int(n) < m {
+					return distinct[int(n)]
+				}
+			}
+		}
+		return -1
+	}
+	// orderby with a key expression over a relation
+	{
+		v, err := evalTemplate(relKI+" orderby .k", dvals)
+		txt, got := idxList(v, err, byI)
+		if !sameOrder(got, expected) {
+			r.fail("orderby-key")
+		}
+		r.fields = append(r.fields, "ordk="+txt)
+	}
+	// order with an explicit comparison function, both directions
+	{
+		v, err := evalTemplate("{"+vars(n, "%s")+"} order \\a \\b a < b", vals)
+		txt, got := idxList(v, err, byCanon)
+		if !sameOrder(got, expected) {
+			r.fail("order<")
+		}
+		r.fields = append(r.fields, "order="+txt)
+		rev := make([]int, len(expected))
+		for k := range expected {
+			rev[k] = expected[len(expected)-1-k]
+		}
+		v, err = evalTemplate("{"+vars(n, "%s")+"} order \\a \\b a > b", vals)
+		txt, got = idxList(v, err, byCanon)
+		if !sameOrder(got, rev) {
+			r.fail("order>")
+		}
+		r.fields = append(r.fields, "orderd="+txt)
+	}
+	// rank with two ranking attributes: the key, and a coarse one with many ties (i % 2)
+	{
+		res := "error"
+		if v, err := evalTemplate(relKI+" rank (rk: .k, rm: .i % 2)", dvals); err == nil {
+			if s, ok := v.(rel.Set); ok {
+				out := make([]string, m)
+				for p := range out {
+					out[p] = "?"
+				}
+				for e := s.Enumerator(); e.MoveNext(); {
+					t, ok := e.Current().(rel.Tuple)
+					if !ok {
+						continue
+					}
+					iv, h1 := t.Get("i")
+					rk, h2 := t.Get("rk")
+					rm, h3 := t.Get("rm")
+					if !h1 || !h2 || !h3 {
+						continue
+					}
+					if nn, ok := iv.(rel.Number); ok && int(nn) >= 0 && int(nn) < m {
+						out[int(nn)] = hlib.Canon(rk) + "/" + hlib.Canon(rm)
+					}
+				}
+				res = strings.Join(out, ",")
+				evens := (m + 1) / 2
+				for p, i := range distinct {
+					wantRm := 0
+					if p%2 == 1 {
+						wantRm = evens
+					}
+					if out[p] != strconv.Itoa(pos[i])+"/"+strconv.Itoa(wantRm) {
+						r.fail(fmt.Sprintf("rank2(%d)", i))
+					}
+				}
+			}
+		}
+		if res == "error" {
+			r.fail("rank2-error")
+		}
+		r.fields = append(r.fields, "rank2="+res)
+	}
+	// max / min with a key expression
+	for _, op := range []string{"max", "min"} {
+		res := "error"
+		if v, err := evalTemplate(relKI+" "+op+" .k", dvals); err == nil {
+			idx := byCanon(v)
+			res = strconv.Itoa(idx)
+			want := expected[len(expected)-1]
+			if op == "min" {
+				want = expected[0]
+			}
+			if idx != want {
+				r.fail(op + "-key")
+			}
+		} else {
+			r.fail(op + "-key-error")
+		}
+		r.fields = append(r.fields, op+"k="+res)
+	}
+	// printed order of dictionary entries and of relation rows
+	{
+		ents := make([]string, m)
+		for p := range ents {
+			ents[p] = fmt.Sprintf("%s: %d", varName(p), p)
+		}
+		res := "error"
+		if v, err := evalTemplate("{"+strings.Join(ents, ", ")+"}", dvals); err == nil {
+			parts := make([]string, m)
+			for k, i := range expected {
+				p := 0
+				for q, j := range distinct {
+					if j == i {
+						p = q
+					}
+				}
+				parts[k] = fu.Repr(vals[i]) + ": " + strconv.Itoa(p)
+			}
+			if fu.Repr(v) == "{"+strings.Join(parts, ", ")+"}" {
+				res = "ok"
+			} else {
+				res = "FAIL"
+				r.fail("print-dict")
+			}
+		} else {
+			r.fail("print-dict-error")
+		}
+		r.fields = append(r.fields, "prd="+res)
+		res = "error"
+		if v, err := evalTemplate("{|k| "+vars(m, "(%s)")+"}", dvals); err == nil {
+			parts := make([]string, m)
+			for k, i := range expected {
+				parts[k] = "(" + fu.Repr(vals[i]) + ")"
+			}
+			if fu.Repr(v) == "{|k| "+strings.Join(parts, ", ")+"}" {
+				res = "ok"
+			} else {
+				res = "FAIL"
+				r.fail("print-rel")
+			}
+		} else {
+			r.fail("print-rel-error")
+		}
+		r.fields = append(r.fields, "prr="+res)
+	}
 	return r
 }
 
